@@ -86,6 +86,14 @@ CLAIMED["C03"] = dict(
     technique="Coq proof (unfolding of the signing pipeline, base64 round trip) + bit-exact correspondence and cross-verification with independent Gallina primitives (extracted and vm_compute/BigZ)",
 )
 
+CLAIMED["C10"] = dict(
+    category="proof",
+    text="Theorems in coq/Props/Properties_C10.v: whatever passes the key tests that the models of sign/verify/encrypt/decrypt/wrap/unwrap/exchange perform before any cryptography satisfies the RFC 7518 requirement -- HMAC keys decode to between hash-size and KEYMAX octets; content keys are exactly 16/24/32 (GCM) or 32/48/64 (CBC-HMAC) octets and the content algorithms only ever run with a key of exactly that length; key-wrapping keys exactly 16/24/32; PBES2 passwords and wrapped keys bounded by KEYMAX; RSA signature keys have a modulus of at least 256 octets on both sides; an imported EC key names one of the four curves, its (reduced) coordinates satisfy the curve equation and a present d is in [1,n) with dG = (x,y); ECDH needs two valid keys and a private value. Tie: every length 0..1100 (+2048, 4096) of HMAC keys offered to signing and to verification of a MAC made with that very key; CEK/KEK length grids on the producing side; tokens made with the exact key consumed with every truncation/extension; RSA moduli 512..2056 bits (committed corpus) for signing and for verification of valid signatures made with python; per curve ~30 EC key variants (off-curve, swapped, other curve, wrong width, x+p, d+1, d=0, d=n, d+n, unknown crv, malformed) through sign, verify, ECDH-ES wrap/unwrap, exchange; symmetric model extracted, public-key model over BigZ in coqc; independent python arithmetic as oracle.",
+    design_ref="DESIGN.md section 3 C10",
+    note="Coq kernel + vm_compute; Print Assumptions lists only the Int63 primitives of Bignums for the theorems that mention the BigZ instance. EC_KEY_check_key and RSA import are modelled (see ASSUMPTIONS in the evidence); OpenSSL reduces supplied coordinates modulo p, so x+p denotes the same (valid) point and is accepted -- modelled as such.",
+    technique="Coq proof on key-acceptance predicates shared with the operation models + length-grid / invalid-key correspondence (extracted model, BigZ via coqc)",
+)
+
 CLAIMED["C13"] = dict(
     category="proof",
     text="Theorems in coq/Props/Properties_C13.v over an ARBITRARY abelian group with scalar action (Section hypotheses): ECDH role symmetry a.(b.P) = b.(a.P); the three ECMR modes (local private: multiplication; only remote private: addition; neither: local minus remote) on the model of ecmr.c; the McCallum-Relyea recovery (C+E, s.(C+E), minus e.S) = c.S = s.C for all c, s, e, P; the result object has exactly kty, crv, x, y; refusals (kty / alg / curve mismatch, ECDH without local d, deriveKey not granted, keys that cannot be imported) on the decision model jwk_exc with the two exchange algorithms as records. Tie: decisions through the extracted model; x/y of every successful exchange recomputed by the Gallina curve arithmetic over BigZ (vm_compute inside coqc) for P-256/384/521, both role orders, the full recovery protocol on the implementation's own intermediates, every mismatch combination; implementation-only oracle (symmetry, recovery identity, no d, fixed coordinate width).",
